@@ -8,6 +8,7 @@ import CallbagModel.Inv.Flatten
 import CallbagModel.Inv.ForEach
 import CallbagModel.Inv.FromIter
 import CallbagModel.Inv.Fuse
+import CallbagModel.Inv.LateMember
 import CallbagModel.Inv.Merge
 import CallbagModel.Inv.MonSound
 import CallbagModel.Inv.PlugOpSafe
@@ -95,6 +96,14 @@ theorem C17_flatten_network {So Lo Si Li αo αi : Type} {Mo : Machine So Lo αo
 theorem C17_member_of_concat {S1 L1 β : Type} {M1 : Machine S1 L1 β β} (h1 : Pipeable M1) (n : Nat) (hn : 0 < n) (j : Nat) :
     ∀ s, SReach (plugOp j M1 (Concat.machine β n)) s → SafeFor 17 s :=
   fun s hs => safeFor_of_basicSafe _ s hs (PlugOpSafe.plugOp_concat_basicSafe h1 n hn j s hs) 17 (by decide)
+
+theorem C17_take_member_of_merge {α : Type} (max n j : Nat) :
+    ∀ s, SReach (plugOp j (Take.machine α max) (Merge.machine α n true)) s → SafeFor 17 s :=
+  fun s hs => safeFor_of_basicSafe _ s hs (LateMember.plugOp_take_merge_basicSafe max n j s hs) 17 (by decide)
+
+theorem C17_relay_member_of_merge {σ α : Type} (k : Relay.Kind σ α α) (hk : k.slotted = false → ∀ s a, (k.xfer s a).2 ≠ none) (n j : Nat) :
+    ∀ s, SReach (plugOp j (Relay.machine k) (Merge.machine α n true)) s → SafeFor 17 s :=
+  fun s hs => safeFor_of_basicSafe _ s hs (LateMember.plugOp_relay_merge_basicSafe k hk n j s hs) 17 (by decide)
 
 
 /-- `share`, EVERY conformant environment (nested fan-out included): the only phase-level violations share can commit are deliveries
